@@ -387,3 +387,55 @@ def walk_texts(op):
 
     rec(op)
     return out
+
+
+# ---------------------------------------------------------------------- generic op-tree workload for single-URL invariants
+def optree_cases(rng, n, surrogates=False, maxdepth=3):
+    """Yield (op, used_intermediates, [every URL the tree produced: intermediates first, result last]) for n random op trees.
+    'However produced': a property's single-URL invariant is applied to all of them, not only to the entry points its own
+    kernel enumerates."""
+    from .obs import guarded, is_exc
+
+    og = OpGen(rng, surrogates=surrogates)
+    for k in range(n):
+        op = og.any(maxdepth)
+        touched = k % 2 == 0
+        seen = []
+
+        def t(u, touched=touched, seen=seen):
+            if touched:
+                touch_all(u)
+            if hasattr(u, "raw_path"):
+                seen.append(u)
+            return u
+
+        r = guarded(apply, op, t)
+        if not is_exc(r) and hasattr(r, "raw_path"):
+            seen.append(r)
+        yield op, touched, seen
+
+
+def run_optrees(ctx, invariant, n, surrogates=False):
+    for op, touched, urls in optree_cases(ctx.rng, n, surrogates):
+        case = {"entry": "optree", "op": op, "used_intermediates": touched}
+        for j, u in enumerate(urls):
+            ctx.count("optree_urls")
+            invariant(ctx, u, case if j == len(urls) - 1 else dict(case, intermediate=j))
+
+
+def replay_optree(ctx, c, invariant):
+    from .obs import guarded, is_exc
+
+    seen = []
+
+    def t(u):
+        if c.get("used_intermediates"):
+            touch_all(u)
+        seen.append(u)
+        return u
+
+    r = guarded(apply, c["op"], t)
+    if not is_exc(r) and hasattr(r, "raw_path"):
+        seen.append(r)
+    for u in seen:
+        invariant(ctx, u, c)
